@@ -28,6 +28,8 @@ func checkC07(c *Check) {
 	ruleAllocSites(c, p, "R07.4")
 	ruleGetTotal(c, p, "R07.5")
 	ruleReaderShutdown(c, p, "R07.6")
+	ruleStreamsThroughInterface(c, p, "R07.10")
+	c.RuleDoc["R07.10"] = "user streams are used only through the interface they were passed as (no type assertion to optional methods)"
 	ruleInputSizedExternalCalls(c, p, "R07.9")
 	c.RuleDoc["R07.9"] = "numbers read from the input do not size anything outside the module (allow-list: io.CopyN, fmt, encoding/binary)"
 	ruleReleaseAfterUse(c, p, "R07.6")
